@@ -10,7 +10,9 @@ VARIABLE cfg
 SizeClasses == {"equal", "bss", "page", "twopage", "one", "empty", "bsspage"}
 Pages == {1, 2, 4}                         \* page numbers (adjacent and separated)
 Shapes == {<<"none", "none">>, <<"named", "none">>, <<"unnamed", "note">>, <<"dup", "gnustack">>, <<"entry-other-name", "none">>,
-           <<"named", "gnustack">>, <<"none", "note">>}
+           <<"named", "gnustack">>, <<"none", "note">>,
+           \* headers that refer to a loaded segment without owning memory: thread-local storage template, read-only-after-relocation range
+           <<"named", "tls">>, <<"none", "tls">>, <<"none", "relro">>}
 \* the configuration space is spread over Init (count, flags, symbol shape) and Next (pages, sizes) so that TLC's
 \* workers share the evaluation
 Init == \E n \in 1..MaxSegs, f1 \in 0..7, sh \in Shapes :
